@@ -403,6 +403,295 @@ Proof.
   auto.
 Qed.
 
+(** * the replace strategy (temporary file + rename over the destination name) *)
+
+Lemma follow_mono : forall k s y e, follow k s y = Ok e -> forall n, (k <= n)%nat -> follow n s y = Ok e.
+Proof.
+  induction k as [|k IH]; intros s y e H n Hn.
+  - cbn [follow] in H. destruct (parent s y) eqn:Hp; try discriminate.
+    destruct (slot s y) eqn:Hs; try discriminate; injection H as <-;
+      (eapply follow_nonsym; [exact Hp | rewrite Hs; exact I]).
+  - destruct n as [|n]; [lia|]. cbn [follow] in *. destruct (parent s y); try discriminate.
+    destruct (slot s y); auto. apply IH; [assumption | lia].
+Qed.
+
+(** when one entry [y] is replaced (and others change only between non-links), a path still resolves
+    as before unless its resolution went through [y] *)
+Lemma follow_change : forall s s' y,
+  (forall z, parent s' z = parent s z) ->
+  (forall z, z <> y -> slot s' z = slot s z \/ (nonsym (slot s z) /\ nonsym (slot s' z))) ->
+  forall n x e, follow n s x = Ok e ->
+  follow n s' x = Ok e \/ exists k, (k <= n)%nat /\ follow k s y = Ok e.
+Proof.
+  intros s s' y Hp Hs. induction n as [|n IH]; intros x e H.
+  - destruct (N.eq_dec x y) as [-> | Hx]; [right; exists 0%nat; split; [lia | exact H]|].
+    left. cbn [follow] in *. rewrite Hp. destruct (parent s x); try discriminate.
+    destruct (Hs x Hx) as [E | [E1 E2]].
+    + rewrite E. exact H.
+    + destruct (slot s x), (slot s' x); cbn in E1, E2; try contradiction; exact H.
+  - destruct (N.eq_dec x y) as [-> | Hx]; [right; exists (S n); split; [lia | exact H]|].
+    cbn [follow] in *. rewrite Hp. destruct (parent s x); try discriminate.
+    destruct (Hs x Hx) as [E | [E1 E2]].
+    + rewrite E. destruct (slot s x) as [| |x'] eqn:Es; [left; exact H | left; exact H |].
+      destruct (IH _ _ H) as [L | (k & Hk & R)]; [left; exact L | right; exists k; split; [lia | exact R]].
+    + left. destruct (slot s x), (slot s' x); cbn in E1, E2; try contradiction; exact H.
+Qed.
+
+Lemma create_excl_inv : forall s t s1 d, create_excl s t = Ok (s1, d) ->
+  slot s t = Empty /\ d = next s
+  /\ s1 = mkFs (upd (slot s) t (Link d)) (upd (inode s) d (Some (File []))) (N.succ d) (parent s).
+Proof.
+  intros s t s1 d. unfold create_excl. destruct (parent s t); try discriminate.
+  destruct (slot s t); try discriminate. intros H. injection H as <- <-. auto.
+Qed.
+
+Lemma cleanup_spec : forall F s t,
+  (forall z, parent (cleanup F s t) z = parent s z)
+  /\ inode (cleanup F s t) = inode s
+  /\ (forall z, z <> t -> slot (cleanup F s t) z = slot s z)
+  /\ (slot (cleanup F s t) t = slot s t \/ slot (cleanup F s t) t = Empty).
+Proof.
+  intros F s t. unfold cleanup. destruct (faulty (F STmpRemove) (remove s t)) as [s'|e] eqn:H; [|auto].
+  apply faulty_ok in H. revert H. unfold remove. destruct (parent s t); try discriminate.
+  destruct (slot s t) eqn:Hs; try discriminate;
+    (destruct (is_dir_slot s _); [discriminate|]); intros H; injection H as <-; cbn [set_slot parent inode slot];
+    (repeat split; auto; [intros z Hz; now apply upd_other | right; apply upd_same]).
+Qed.
+
+(** renaming the finished temporary file (a fresh regular file) over the destination name *)
+Lemma rename_tmp_ok : forall s2 tmp dst d c s3,
+  slot s2 tmp = Link d -> inode s2 d = Some (File c) -> tmp <> dst -> rename s2 tmp dst = Ok s3 ->
+  slot s3 dst = Link d /\ inode s3 = inode s2 /\ (forall z, parent s3 z = parent s2 z)
+  /\ (forall z, z <> dst -> z <> tmp -> slot s3 z = slot s2 z)
+  /\ (slot s3 tmp = Empty \/ slot s3 tmp = Link d)
+  /\ exists dd, parent s2 dst = POk dd.
+Proof.
+  intros s2 tmp dst d c s3 Ht Hd Hne. unfold rename.
+  destruct (parent s2 tmp) as [d1| |] eqn:Hp1; destruct (parent s2 dst) as [d2| |] eqn:Hp2; try discriminate.
+  rewrite Ht. destruct (negb (d1 =? d2)); [discriminate|].
+  apply N.eqb_neq in Hne. rewrite Hne. apply N.eqb_neq in Hne.
+  assert (Moved : forall s', s' = set_slot (set_slot s2 dst (Link d)) tmp Empty ->
+     slot s' dst = Link d /\ inode s' = inode s2 /\ (forall z, parent s' z = parent s2 z)
+     /\ (forall z, z <> dst -> z <> tmp -> slot s' z = slot s2 z)
+     /\ (slot s' tmp = Empty \/ slot s' tmp = Link d)).
+  { intros s' ->. cbn [set_slot slot inode parent]. repeat split; eauto.
+    - rewrite upd_other by congruence. apply upd_same.
+    - intros z H1 H2. rewrite !upd_other by assumption. reflexivity.
+    - left. apply upd_same. }
+  assert (Fin : forall s', s' = set_slot (set_slot s2 dst (Link d)) tmp Empty ->
+     slot s' dst = Link d /\ inode s' = inode s2 /\ (forall z, parent s' z = parent s2 z)
+     /\ (forall z, z <> dst -> z <> tmp -> slot s' z = slot s2 z)
+     /\ (slot s' tmp = Empty \/ slot s' tmp = Link d) /\ exists dd, POk d2 = POk dd).
+  { intros s' E. destruct (Moved s' E) as (M1 & M2 & M3 & M4 & M5). repeat split; eauto. }
+  rewrite (is_dir_slot_file _ _ _ Hd).
+  destruct (slot s2 dst) as [|j|e'] eqn:Hdst.
+  - cbn [is_dir_slot]. intros H. injection H as <-. now apply Fin.
+  - destruct (d =? j) eqn:Edj.
+    + apply N.eqb_eq in Edj. subst j. intros H. injection H as <-. repeat split; eauto.
+    + destruct (is_dir_slot s2 (Link j)); [discriminate|]. intros H. injection H as <-. now apply Fin.
+  - cbn [is_dir_slot]. intros H. injection H as <-. now apply Fin.
+Qed.
+
+Record replace_post (s : fs) (i : N) (c : list N) (dst tmp : N) (s' : fs) (r : option err) : Prop := {
+  rp_parent : forall x, parent s' x = parent s x;
+  (* every file that existed — the old destination included — is untouched *)
+  rp_inodes : forall j n, inode s j = Some n -> inode s' j = Some n;
+  rp_slots : forall e, e <> dst -> e <> tmp -> slot s' e = slot s e;
+  (* the temporary name: as before, or it was free and now holds nothing or the (left-behind) temporary file *)
+  rp_tmp : slot s' tmp = slot s tmp \/ (slot s tmp = Empty /\ nonsym (slot s' tmp));
+  rp_err : r <> None -> slot s' dst = slot s dst;
+  rp_ok : r = None -> exists d dd, d <> i /\ slot s' dst = Link d /\ inode s' d = Some (File c) /\ parent s dst = POk dd;
+  rp_src : s' = s \/ stat s dst <> Ok i
+}.
+
+Lemma replace_post_refl : forall s i c dst tmp e, replace_post s i c dst tmp s (Some e).
+Proof. intros. constructor; auto; discriminate. Qed.
+
+Lemma replace_tail_spec : forall F s i c dst tmp s' r,
+  wf s -> inode s i = Some (File c) -> stat s dst <> Ok i -> tmp <> dst ->
+  replace_tail F s i dst tmp = (s', r) -> replace_post s i c dst tmp s' r.
+Proof.
+  intros F s i c dst tmp s' r Hwf Hi Hne Htd. unfold replace_tail.
+  destruct (faulty (F SCreate) (create_excl s tmp)) as [[s1 d]|ce] eqn:Hcr;
+    [|intros H; injection H as <- <-; apply replace_post_refl].
+  apply faulty_ok, create_excl_inv in Hcr. destruct Hcr as (Hte & -> & ->).
+  set (d := next s) in *.
+  assert (Hid : i <> d) by (intros ->; unfold d in Hi; rewrite (Hwf (next s)) in Hi by lia; discriminate).
+  assert (Hold : forall j n, inode s j = Some n -> j <> d).
+  { intros j n Hj ->. unfold d in Hj. rewrite (Hwf (next s)) in Hj by lia. discriminate. }
+  (* any state that only differs by the temporary entry and the new inode, cleaned up or not *)
+  assert (Failed : forall s2 e,
+            (forall x, parent s2 x = parent s x) ->
+            (forall j n, inode s j = Some n -> inode s2 j = Some n) ->
+            (forall z, slot s2 z = upd (slot s) tmp (Link d) z) ->
+            replace_post s i c dst tmp (cleanup F s2 tmp) (Some e)).
+  { intros s2 e H2p H2i H2s. destruct (cleanup_spec F s2 tmp) as (C1 & C2 & C3 & C4).
+    constructor; auto; try discriminate.
+    - intros x. now rewrite C1.
+    - intros j n Hj. rewrite C2. eauto.
+    - intros z Hz1 Hz2. rewrite C3, H2s by assumption. now apply upd_other.
+    - right. split; [assumption|]. destruct C4 as [C4 | C4]; rewrite C4; [rewrite H2s, upd_same|]; exact I.
+    - intros _. rewrite C3, H2s by congruence. apply upd_other. congruence. }
+  unfold io_copy. cbn [inode]. rewrite upd_other by assumption. rewrite Hi, upd_same.
+  destruct (F SCopy) as [|fe|k fe].
+  - (* all bytes written: rename the temporary file over the destination name *)
+    rewrite write_at0_nil.
+    set (s2 := set_inode _ d (File c)).
+    assert (H2t : slot s2 tmp = Link d) by (cbn [s2 set_inode slot]; apply upd_same).
+    assert (H2d : inode s2 d = Some (File c)) by (cbn [s2 set_inode inode]; apply upd_same).
+    assert (H2i : forall j n, inode s j = Some n -> inode s2 j = Some n).
+    { intros j n Hj. cbn [s2 set_inode inode]. rewrite !upd_other by (eapply Hold; eassumption). exact Hj. }
+    destruct (faulty (F STmpRename) (rename s2 tmp dst)) as [s3|re] eqn:Hr.
+    + apply faulty_ok in Hr. intros H. injection H as <- <-.
+      destruct (rename_tmp_ok _ _ _ _ _ _ H2t H2d Htd Hr) as (R1 & R2 & R3 & R4 & R5 & dd & R6).
+      constructor; auto; try congruence.
+      * intros j n Hj. rewrite R2. eauto.
+      * intros z Hz1 Hz2. rewrite R4 by assumption. cbn [s2 set_inode slot]. now apply upd_other.
+      * right. split; [assumption|]. destruct R5 as [R5 | R5]; rewrite R5; exact I.
+      * intros _. exists d, dd. repeat split; auto. rewrite R2. exact H2d.
+    + intros H. injection H as <- <-. apply Failed; auto.
+  - intros H. injection H as <- <-. apply Failed; auto.
+    intros j n Hj. cbn [inode]. rewrite upd_other by (eapply Hold; eassumption). exact Hj.
+  - intros H. injection H as <- <-. apply Failed; auto.
+    intros j n Hj. cbn [set_inode inode]. rewrite !upd_other by (eapply Hold; eassumption). exact Hj.
+Qed.
+
+Lemma copy_replace_spec : forall F s src dst tmp i c s' r,
+  wf s -> stat s src = Ok i -> inode s i = Some (File c) -> stat_fault_harmless F s dst i -> tmp <> dst ->
+  copy_replace_f F s src dst tmp = (s', r) -> replace_post s i c dst tmp s' r.
+Proof.
+  intros F s src dst tmp i c s' r Hwf Hs Hi HF Htd. unfold copy_replace_f, open.
+  destruct (faulty (F SOpen) (stat s src)) as [si|oe] eqn:Ho;
+    [|intros H; injection H as <- <-; apply replace_post_refl].
+  apply faulty_ok in Ho. assert (si = i) by congruence. subst si.
+  destruct (F SFstat); try (intros H; injection H as <- <-; apply replace_post_refl).
+  destruct (faulty (F SStatDst) (stat s dst)) as [di|de] eqn:Ed.
+  - apply faulty_ok in Ed. destruct (i =? di) eqn:E.
+    + intros H. injection H as <- <-. apply replace_post_refl.
+    + apply N.eqb_neq in E. apply replace_tail_spec; auto. congruence.
+  - apply replace_tail_spec; auto. apply faulty_err in Ed as [Ed | Ed].
+    + rewrite Ed. discriminate.
+    + destruct HF as [HF | HF]; [contradiction | assumption].
+Qed.
+
+Lemma copy_replace_open_error : forall F s src dst tmp e, stat s src = Err e ->
+  exists e', copy_replace_f F s src dst tmp = (s, Some e').
+Proof.
+  intros F s src dst tmp e H. unfold copy_replace_f, open. rewrite H. destruct (F SOpen); cbn; eauto.
+Qed.
+
+(** the source is found as before: its resolution cannot have gone through the replaced entry *)
+Lemma replace_post_src : forall s i c dst tmp s' r src,
+  replace_post s i c dst tmp s' r -> stat s src = Ok i -> inode s i = Some (File c) ->
+  stat s' src = Ok i /\ (forall e, resolve s src = Ok e -> slot s' e = Link i).
+Proof.
+  intros s i c dst tmp s' r src P Hs Hi.
+  destruct (rp_src _ _ _ _ _ _ _ P) as [-> | Hne].
+  { split; [assumption|]. intros e He. apply stat_inv in Hs as (e0 & He0 & Hl & _). congruence. }
+  apply stat_inv in Hs as (es & He & Hl & _).
+  assert (Hi' : inode s' i = Some (File c)) by (apply (rp_inodes _ _ _ _ _ _ _ P); assumption).
+  assert (Hes : es <> dst).
+  { intros ->. apply Hne. destruct (follow_final _ _ _ _ He) as [_ [dd Hp]].
+    eapply stat_intro with (e := dst); [| exact Hl | exact Hi].
+    unfold resolve. eapply follow_nonsym; [exact Hp | rewrite Hl; exact I]. }
+  assert (Hsl : slot s' es = Link i).
+  { destruct (N.eq_dec es tmp) as [-> | Het].
+    - destruct (rp_tmp _ _ _ _ _ _ _ P) as [E | [E _]]; congruence.
+    - rewrite (rp_slots _ _ _ _ _ _ _ P); assumption. }
+  assert (Hres : resolve s' src = Ok es).
+  { unfold resolve in *.
+    destruct (follow_change s s' dst (rp_parent _ _ _ _ _ _ _ P)) with (n := max_links) (x := src) (e := es) as [L | (k & Hk & R)]; auto.
+    - intros z Hz. destruct (N.eq_dec z tmp) as [-> | Hzt].
+      + destruct (rp_tmp _ _ _ _ _ _ _ P) as [E | [E1 E2]]; [left; assumption | right; rewrite E1; split; [exact I | assumption]].
+      + left. apply (rp_slots _ _ _ _ _ _ _ P); assumption.
+    - exfalso. apply Hne. eapply stat_intro with (e := es); [| exact Hl | exact Hi].
+      unfold resolve. eapply follow_mono; eassumption. }
+  split.
+  - eapply stat_intro; eassumption.
+  - intros e He'. assert (e = es) by congruence. subst. assumption.
+Qed.
+
+(** the C18 statement for CopyFile with the replace strategy, under every fault oracle *)
+Lemma copy_replace_f_safe : forall F s src dst tmp i c s' r,
+  wf s -> stat s src = Ok i -> inode s i = Some (File c) -> stat_fault_harmless F s dst i -> tmp <> dst ->
+  copy_replace_f F s src dst tmp = (s', r) ->
+  (r = None -> read_path s' dst = Some c /\ stat s' dst <> Ok i)
+  /\ read_path s' src = Some c
+  /\ stat s' src = Ok i /\ inode s' i = Some (File c)
+  /\ (forall j n, inode s j = Some n -> inode s' j = Some n)
+  /\ (forall e, e <> dst -> e <> tmp -> slot s' e = slot s e)
+  /\ (r <> None -> slot s' dst = slot s dst).
+Proof.
+  intros F s src dst tmp i c s' r Hwf Hs Hi HF Htd H.
+  pose proof (copy_replace_spec _ _ _ _ _ _ _ _ _ Hwf Hs Hi HF Htd H) as P.
+  destruct (replace_post_src _ _ _ _ _ _ _ _ P Hs Hi) as [Hs' _].
+  pose proof (rp_inodes _ _ _ _ _ _ _ P _ _ Hi) as Hi'.
+  split; [|split; [|split; [|split; [|split; [|split]]]]]; auto.
+  - intros Hr. destruct (rp_ok _ _ _ _ _ _ _ P Hr) as (d & dd & Hd & Hsl & Hc & Hp).
+    assert (Hst : stat s' dst = Ok d).
+    { eapply stat_intro with (e := dst); [| exact Hsl | exact Hc].
+      unfold resolve. eapply follow_nonsym; [rewrite (rp_parent _ _ _ _ _ _ _ P); exact Hp | rewrite Hsl; exact I]. }
+    split; [eapply read_path_intro; eassumption | congruence].
+  - eapply read_path_intro; eassumption.
+  - apply (rp_inodes _ _ _ _ _ _ _ P).
+  - apply (rp_slots _ _ _ _ _ _ _ P).
+  - apply (rp_err _ _ _ _ _ _ _ P).
+Qed.
+
+(** the C18 statement for MoveFile on top of the replace strategy, under every fault oracle *)
+Lemma move_replace_f_safe : forall F s src dst tmp i c s' r,
+  wf s -> slot s src = Link i -> inode s i = Some (File c) -> stat_fault_harmless F s dst i -> tmp <> dst ->
+  move_replace_f F s src dst tmp = (s', r) ->
+  (r = None ->
+     read_path s' dst = Some c
+     /\ (slot s' src = Empty \/ (stat s dst = Ok i /\ slot s' src = Link i /\ inode s' i = Some (File c))))
+  /\ (r <> None -> slot s' src = Link i /\ inode s' i = Some (File c))
+  /\ (forall j n, inode s j = Some n -> stat s dst <> Ok j -> inode s' j = Some n)
+  /\ (slot s' src = Empty -> read_path s' dst = Some c).
+Proof.
+  intros F s src dst tmp i c s' r Hwf Hs Hi HF Htd. unfold move_replace_f.
+  destruct (faulty (F SRename) (rename s src dst)) as [s1|re] eqn:Hr.
+  - apply faulty_ok in Hr. intros H. injection H as <- <-.
+    destruct (rename_ok _ _ _ _ _ _ Hs Hi Hr) as [[-> Hst] | (Hempty & Hst & Hino)].
+    + split; [|split; [|split]]; [| congruence | auto | intros E; rewrite Hs in E; discriminate].
+      intros _. split; [eapply read_path_intro; eassumption | right; auto].
+    + assert (Hrd : read_path s1 dst = Some c) by (eapply read_path_intro; [eassumption | now rewrite Hino]).
+      split; [|split; [|split]]; [| congruence | intros j n Hj _; now rewrite Hino | auto].
+      intros _. split; [assumption | left; assumption].
+  - clear Hr. destruct (stat s src) as [i'|e] eqn:Hst.
+    + destruct (stat_direct_link _ _ _ Hs _ Hst) as [-> [d Hpar]].
+      destruct (copy_replace_f F s src dst tmp) as [s1 r1] eqn:Hc.
+      pose proof (copy_replace_spec _ _ _ _ _ _ _ _ _ Hwf Hst Hi HF Htd Hc) as P.
+      assert (Hres : resolve s src = Ok src).
+      { unfold resolve. eapply follow_nonsym; [exact Hpar | rewrite Hs; exact I]. }
+      destruct (replace_post_src _ _ _ _ _ _ _ _ P Hst Hi) as [_ Hsl]. specialize (Hsl _ Hres).
+      pose proof (rp_inodes _ _ _ _ _ _ _ P _ _ Hi) as Hi1.
+      assert (Hp1 : parent s1 src = POk d) by (rewrite (rp_parent _ _ _ _ _ _ _ P); assumption).
+      assert (Hoth : forall j n, inode s j = Some n -> stat s dst <> Ok j -> inode s1 j = Some n)
+        by (intros j n Hj _; apply (rp_inodes _ _ _ _ _ _ _ P); assumption).
+      destruct r1 as [e1|].
+      * intros H. injection H as <- <-. split; [discriminate|]. split; [auto|]. split; [exact Hoth|].
+        intros E. rewrite Hsl in E. discriminate.
+      * destruct (rp_ok _ _ _ _ _ _ _ P eq_refl) as (dd & pd & Hdd & Hsd & Hcd & Hpd).
+        assert (Hsrcdst : src <> dst) by (intros ->; rewrite Hsl in Hsd; congruence).
+        rewrite (remove_after_copy _ _ _ _ _ Hp1 Hsl Hi1).
+        assert (Hrd : read_path (set_slot s1 src Empty) dst = Some c).
+        { eapply read_path_intro with (i := dd); [|exact Hcd].
+          eapply stat_intro with (e := dst); cbn [set_slot slot inode]; [| rewrite upd_other by congruence; exact Hsd | exact Hcd].
+          unfold resolve. eapply follow_nonsym; cbn [set_slot parent slot].
+          - rewrite (rp_parent _ _ _ _ _ _ _ P). exact Hpd.
+          - rewrite upd_other by congruence. rewrite Hsd. exact I. }
+        destruct (F SRemove) as [|fe|k fe]; cbn [faulty]; intros H; injection H as <- <-.
+        -- split; [|split; [|split]]; [| congruence | exact Hoth | auto].
+           intros _. split; [assumption | left; cbn [set_slot slot]; apply upd_same].
+        -- split; [discriminate|]. split; [auto|]. split; [exact Hoth|].
+           intros E. rewrite Hsl in E. discriminate.
+        -- split; [discriminate|]. split; [auto|]. split; [exact Hoth|].
+           intros E. rewrite Hsl in E. discriminate.
+    + destruct (copy_replace_open_error F _ src dst tmp _ Hst) as [e' ->]. intros H. injection H as <- <-.
+      split; [discriminate|]. split; [auto|]. split; [auto|]. intros E. rewrite Hs in E. discriminate.
+Qed.
+
 (** * the defect of the earlier CopyFile (no same-file test) *)
 
 Definition self_fs : fs :=
@@ -458,5 +747,10 @@ Lemma scenario_source : forall k od c,
   /\ inode (scenario k od false c) 0 = Some (File c).
 Proof. intros k od c. repeat split. Qed.
 
-Lemma scenario_faults_harmless : forall k s dst i, stat_fault_harmless (scenario_faults k) s dst i.
-Proof. intros k s dst i. left. destruct k; reflexivity. Qed.
+Lemma scenario_faults_harmless : forall b k s dst i, stat_fault_harmless (scenario_faults b k) s dst i.
+Proof. intros b k s dst i. left. destruct k; reflexivity. Qed.
+
+Lemma scenario_tmp : forall k od c,
+  tmp_path <> dst_path k /\ slot (scenario k od false c) tmp_path = Empty
+  /\ parent (scenario k od false c) tmp_path = parent (scenario k od false c) (dst_path k).
+Proof. intros k od c. destruct k; repeat split; discriminate. Qed.
